@@ -1574,6 +1574,16 @@ chkpnta(void)
 				/* reassign */
 				snds = nup;
 				zsnds = nuz;
+				/* the nodes may have moved, so seed the
+				 * tree of seen users afresh */
+				seen_init(&sntr);
+				for (size_t j = 0U; j < nsnds; j++) {
+					snds[j] = (ndnd_t){
+						.key = snds[j].key,
+						.fd = snds[j].fd,
+					};
+					add_seen(&sntr, snds + j);
+				}
 			}
 			snds[nsnds] = (ndnd_t){.key = u, .fd = fd};
 			add_seen(&sntr, snds + nsnds++);
